@@ -76,7 +76,10 @@ def _probe(ctx, cls, text, mode):
     ent = cls(CircularRecord(Seq(text), "probe"))
     before = ctx.counters["c04_entities_judged"]
     try:
-        ok = ent.is_valid()
+        first = ent.is_valid()
+        ok = ent.is_valid()          # a verdict cached on the entity must not turn a rejection into an acceptance
+        if ok and not first:
+            ctx.count("accepted_only_on_second_call")
     except Exception as e:
         ctx.count("is_valid_raised")
         return
